@@ -164,11 +164,6 @@ class Filenames(object):
         # Return static filenames
         for item in static:
             currentns = self.variables.copy()
-            for key, value in list(currentns.items()):
-                if self.charsub:
-                    for char in self.charsub[0]:
-                        value = value.replace(char, self.charsub[1])
-                currentns[key] = value
             for key, format in keysre.findall(item):
                 # Supply a file number as needed
                 if key == 'num':
@@ -182,6 +177,11 @@ class Filenames(object):
                             break
                         newvalue.append(value.pop(0))
                     currentns[key] = ' '.join(newvalue)
+            for key, value in list(currentns.items()):
+                if self.charsub:
+                    for char in self.charsub[0]:
+                        value = value.replace(char, self.charsub[1])
+                currentns[key] = value
             try:
                 # Strip formats
                 item = re.sub(r'(\$\{\w+)\.\d+(\})', r'\1\2', item)
@@ -206,11 +206,6 @@ class Filenames(object):
             passes += 1
             for item in wildcard:
                 currentns = self.variables.copy()
-                for key, value in list(currentns.items()):
-                    if self.charsub:
-                        for char in self.charsub[0]:
-                            value = value.replace(char, self.charsub[1])
-                    currentns[key] = value
                 for key, format in keysre.findall(item):
                     # Supply a file number as needed
                     if key == 'num':
@@ -224,6 +219,11 @@ class Filenames(object):
                                 break
                             newvalue.append(value.pop(0))
                         currentns[key] = ' '.join(newvalue)
+                for key, value in list(currentns.items()):
+                    if self.charsub:
+                        for char in self.charsub[0]:
+                            value = value.replace(char, self.charsub[1])
+                    currentns[key] = value
                 try:
                     # Strip formats
                     item = re.sub(r'(\$\{\w+)\.\d+(\})', r'\1\2', item)
